@@ -16,6 +16,9 @@ use parking_lot::RwLock;
 use std::panic::{catch_unwind, AssertUnwindSafe};
 use std::sync::Arc;
 
+#[path = "../transport_client.rs"]
+pub mod transport_client;
+
 pub struct C12;
 pub static P: C12 = C12;
 
@@ -276,11 +279,12 @@ impl Prop for C12 {
 
     fn gen(&self, rng: &mut Rng, n: usize, _tier: Tier, out: &mut Vec<String>) {
         for _ in 0..n {
-            match rng.weighted(&[5, 4, 2, 2]) {
+            match rng.weighted(&[5, 4, 2, 2, 4]) {
                 0 => gen_validate(rng, out),
                 1 => gen_srv(rng, out),
                 2 => gen_tx(rng, out),
-                _ => gen_mw(rng, out),
+                3 => gen_mw(rng, out),
+                _ => transport_client::gen_cli(rng, false, out),
             }
         }
     }
@@ -292,6 +296,7 @@ impl Prop for C12 {
             tx_base: 0,
             ids: Vec::new(),
             mw: None,
+            cli: None,
         })
     }
 }
@@ -327,6 +332,7 @@ struct R {
     tx_base: u32,
     ids: Vec<u32>,
     mw: Option<Mw>,
+    cli: Option<transport_client::Cli>,
 }
 
 /// splits a byte stream of policy-None MSG chunks; returns (seq, req) per chunk
@@ -388,6 +394,14 @@ impl Runner for R {
     fn step(&mut self, toks: &[&str]) -> (String, Verdict) {
         match toks {
             ["reset", "val"] | ["reset", "srv"] => ("ok".to_string(), Verdict::Ok),
+            ["reset", "cli", mp, ch] => {
+                self.cli = Some(transport_client::Cli::new(mp.parse().unwrap(), ch.parse().unwrap()));
+                ("ok".to_string(), Verdict::Ok)
+            }
+            ["req"] | ["cchunk", ..] => match self.cli.as_mut() {
+                Some(c) => c.step(toks),
+                None => ("bad-op".to_string(), Verdict::Ok),
+            },
             ["reset", "tx", ..] => {
                 self.tx_base = 0;
                 self.tx.step(toks)
